@@ -1377,3 +1377,13 @@ def constructor_owns_records(cx: Cx, ob: Ob) -> None:
         fresh = (op(v) == "call" and v[1] in MATERIALISE) or op(v) in ("comp", "list", "tuple", "new")
         if not fresh and v != rp:
             ob.undecide(f"self.records is assigned `{show(v)[:60]}`: not recognisably a fresh list")
+
+
+def package_lints(cx: Cx, ob: Ob, files: set) -> None:
+    """ONE-SHOT iterator reuse and MUTABLE-DEFAULT leaks in the files a property is anchored in."""
+    from .analyses.lints import scan
+
+    lints, n = scan(cx.model, files)
+    ob.site("src/curies/{" + ",".join(sorted(files)) + "}", f"{n} functions scanned (def-use lints)")
+    for l in lints:
+        ob.violate(l.fn.qualname, where(l.fn, l.line), l.message, detail=f"{l.rule}:{l.name}")
